@@ -400,6 +400,74 @@ static void story_selfcheck_case(uint64_t idx, void *arg)
         mc_sample("storyline '%s': %d letters, reached=%#x", s->name, s->n, got);
 }
 
+/* ---- every order of the page transmissions of a storyline ------------------ */
+
+/* A storyline fixes one order of its page transmissions (header + rows).  What the decoder does with a page depends on
+ * what it already knows when the page arrives (an AIT or POP page received before the BTT / MOT / MIP that classifies it is
+ * stored with function UNKNOWN and converted or rejected at fetch time; an object page after the page that invokes it ...),
+ * so every order of the transmissions of a storyline is run: <= 7 transmissions all permutations, more: all rotations and
+ * all exchanges of two transmissions.  After each order a filler header ends the last page, the heavy probes run and the
+ * decoder is deleted under the allocator accounting. */
+#define OMAXB 24
+#define OCHUNK 48
+struct oplan { int nb, start[OMAXB + 1]; uint64_t norders, first_case, ncases; };
+static struct oplan OP[MAXSTORY]; static uint64_t n_order_cases;
+
+static int letter_is_header(int id)
+{
+        if (LT[id].kind != LK_TTX) return 0;
+        int a = vbi_unham16p(PKT[LT[id].a]);
+        return a >= 0 && (a >> 3) == 0;
+}
+static void build_orders(int thorough)
+{
+        n_order_cases = 0;
+        for (int si = 0; si < NST; si++) {
+                struct oplan *o = &OP[si]; const struct story *s = &ST[si];
+                o->nb = 0;
+                for (int k = 0; k < s->n; k++) if (k == 0 || (letter_is_header(s->step[k]) && o->nb < OMAXB)) o->start[o->nb++] = k;
+                o->start[o->nb] = s->n;
+                int lim = thorough ? 8 : 7;
+                if (o->nb <= lim) { o->norders = 1; for (int i = 2; i <= o->nb; i++) o->norders *= i; }
+                else o->norders = (uint64_t) o->nb + (uint64_t) o->nb * (o->nb - 1) / 2;
+                o->first_case = n_order_cases; o->ncases = (o->norders + OCHUNK - 1) / OCHUNK; n_order_cases += o->ncases;
+        }
+}
+static void order_perm(const struct oplan *o, uint64_t k, int *perm)
+{
+        int nb = o->nb, lim_fact = 1;
+        { uint64_t f = 1; for (int i = 2; i <= nb; i++) f *= i; lim_fact = (f == o->norders); }
+        for (int i = 0; i < nb; i++) perm[i] = i;
+        if (lim_fact) {                                  /* k-th permutation, factorial number system */
+                int pool[OMAXB]; for (int i = 0; i < nb; i++) pool[i] = i;
+                for (int i = 0; i < nb; i++) {
+                        uint64_t f = 1; for (int j = 2; j <= nb - 1 - i; j++) f *= j;
+                        int d = (int)(k / f); k %= f;
+                        perm[i] = pool[d]; memmove(pool + d, pool + d + 1, (nb - 1 - i - d) * sizeof *pool);
+                }
+        } else if (k < (uint64_t) nb) { for (int i = 0; i < nb; i++) perm[i] = (i + (int) k) % nb; }
+        else { k -= nb; int a = 0; while (k >= (uint64_t)(nb - 1 - a)) { k -= nb - 1 - a; a++; } int b = a + 1 + (int) k; int t = perm[a]; perm[a] = perm[b]; perm[b] = t; }
+}
+static void order_case(uint64_t idx, void *arg)
+{
+        int si = 0; while (si + 1 < NST && OP[si + 1].first_case <= idx) si++;
+        const struct oplan *o = &OP[si]; const struct story *s = &ST[si];
+        uint64_t k0 = (idx - o->first_case) * OCHUNK;
+        for (uint64_t k = k0; k < k0 + OCHUNK && k < o->norders; k++) {
+                int perm[OMAXB]; order_perm(o, k, perm);
+                size_t c = snprintf(cur_ctx, sizeof cur_ctx, "storyline '%s', page transmissions in order", s->name);
+                for (int i = 0; i < o->nb && c + 8 < sizeof cur_ctx; i++) c += snprintf(cur_ctx + c, sizeof cur_ctx - c, " %d", perm[i]);
+                ex_begin();
+                for (int i = 0; i < o->nb; i++) run_story_steps(s, o->start[perm[i]], o->start[perm[i] + 1]);
+                do_letter(TTX(P_H1FF));
+                probes(1);
+                audit();
+                ex_end();
+                mc_count("evaluations", 1); mc_count("storyline_orders", 1);
+                { mc_hash h; mc_hash_init(&h); mc_hash_u64(&h, 0x0bde); mc_hash_u64(&h, si); mc_hash_u64(&h, k); mc_distinct(h.a); }
+        }
+}
+
 /* ---- byte exhaustive single steps ---------------------------------------- */
 
 struct target { short story, step; };
@@ -912,12 +980,14 @@ int main(int argc, char **argv)
 
         char bound[1400]; size_t o = 0;
         for (int i = 0; i < NLY; i++) o += snprintf(bound + o, sizeof bound - o, "%slayer %s: %d letters, depth %d", i ? "; " : "", LY[i].name, LY[i].n, LY[i].depth[thorough]);
-        o += snprintf(bound + o, sizeof bound - o, "; byte exhaustive: %d (state,packet) targets of %d storylines x 42 positions x 256 values; caption: %d states x 2 fields x 65536 pairs; growth: %d storylines + all %d-letter sequences over %d letters, 9 repetitions; held page: 3 storylines x 2 levels x 10 disturbances x 2 uses; XDS: 96 (class,type) x 11 lengths x %d values x 2 patterns; ITV: 8 strings x every position x 96 characters; all 65536 WSS words, 256 CPR-1204 bytes, VPS 3 bases x 13 bytes x 256; aux IDL/PFC: 3 packets x 42 x 256",
+        o += snprintf(bound + o, sizeof bound - o, "; storyline orders: every order of the page transmissions of each storyline (up to 7 transmissions, thorough 8: all permutations; more: all rotations and exchanges of two); byte exhaustive: %d (state,packet) targets of %d storylines x 42 positions x 256 values; caption: %d states x 2 fields x 65536 pairs; growth: %d storylines + all %d-letter sequences over %d letters, 9 repetitions; held page: 3 storylines x 2 levels x 10 disturbances x 2 uses; XDS: 96 (class,type) x 11 lengths x %d values x 2 patterns; ITV: 8 strings x every position x 96 characters; all 65536 WSS words, 256 CPR-1204 bytes, VPS 3 bases x 13 bytes x 256; aux IDL/PFC: 3 packets x 42 x 256",
                       NTG, NST, n_cc_states, NST, grow_len, NGROW, thorough ? 96 : 9);
         mc_meta("bound", "%s", bound);
         mc_note("alphabet: %d letters (%d Teletext packets, %d caption/XDS/ITV, %d misc, %d read side)", NLT, NPKT, LT_CC1 - LT_CC0, LT_MISC1 - LT_MISC0, LT_READ1 - LT_READ0);
 
         POOL("storylines-selfcheck", NST, story_selfcheck_case, NULL, 60);
+        build_orders(thorough);
+        POOL("storyline-orders", n_order_cases, order_case, NULL, 120);
 
         POOL("byte-exhaustive", (uint64_t) NTG * 42, byte_case, NULL, 120);
         { static int use0 = 0, use1 = 1;
